@@ -395,10 +395,10 @@ def replay_case(rec):
         # the history of Wrappers.tla is performed again on real objects; the expected answer is the fresh verdict of the class
         # named by the specification on the sequence named by the specification
         import random
+        loader.load()
         from Bio.Seq import Seq
         from moclo.record import CircularRecord
         from .. import scenario
-        loader.load()
         import moclo.kits.ytk, moclo.kits.cidar, moclo.kits.ecoflex, moclo.kits.moclo, moclo.kits.plant  # noqa
         _server[0] = forked.Server()
         rng = random.Random(int(case.get("seed", 0)) * 1000003 + 6)
